@@ -269,9 +269,10 @@ Qed.
    (Proofs/EnginePost.v: Post / run_memo_post / memo_tinv). *)
 From TV Require Model.Engine Model.BlockAlg Model.BlockEngine Model.BlockAbs Model.BlockRoot Model.BlockTreeProps Model.BlockEngineExample Model.BlockAbsExample.
 From TV Require Proofs.EnginePost Proofs.BlockTreeFlow Proofs.BlockTreeOrder.
+From TV Require Model.BlockTreeExample.
 Module WholeTrees.
   Import TV.Model.Engine TV.Model.BlockAlg TV.Model.BlockEngine TV.Model.BlockAbs TV.Model.BlockRoot TV.Model.BlockTreeProps.
-  Import TV.Proofs.EnginePost TV.Proofs.BlockTreeFlow TV.Proofs.BlockTreeOrder.
+  Import TV.Proofs.EnginePost TV.Proofs.BlockTreeFlow TV.Proofs.BlockTreeOrder TV.Model.BlockTreeExample.
   Close Scope Q_scope.
 
   (* the invariant holds for a freshly built tree and is kept by every memoised PerformLayout evaluation, by compute_root_layout
@@ -293,8 +294,14 @@ Module WholeTrees.
   (* clause 1 on whole trees: in ANY tree satisfying the invariant (e.g. after any number of passes from a fresh tree), for every
      evaluated block container with finite top padding / border whose in-flow children have non-negative (or auto) vertical
      margins, no vertical inset, and whose REAL outputs -- their final cache entries, the values this container consumed -- are
-     finite with non-negative margin sets and satisfy H_ct: the in-flow children are stacked in document order without overlap *)
-  Theorem C10_block_tree_children_stacked : forall t1 s c l kids i0 o0,
+     finite with non-negative margin sets and satisfy H_ct: the in-flow children are stacked in document order without overlap.
+     PARTIAL (renamed by the audit of wave 7b: it carries every proviso for which the kernel theorem is C10_order_no_overlap_partial, and more).
+     Missing w.r.t. the text: H_ct is a premise on the children's outputs that the implementation violates (known finding); the children's
+     REPORTED margin sets must be non-negative, their outputs finite (premises inside kid_order_ok, not facts about styles); no relative
+     inset; PERCENTAGE vertical margins are excluded (nice_margin (Pct _) = False: the kernel theorem allows them, it works on resolved
+     margins); the container's top padding / border must be lengths (Pct excluded).  `kids_stacked` is written with `val` (0 on NaN / infinity)
+     and does not itself assert that the y coordinates are finite. *)
+  Theorem C10_block_tree_children_stacked_partial : forall t1 s c l kids i0 o0,
     flow_inv (T := XQ) block_pre t1 -> subtree_of (Node _ _ _ _ s c l kids) t1 ->
     final _ _ c = Some (i0, o0) -> bn_is_none s = false ->
     top_edge_finite (bn_style s) -> Forall kid_order_ok kids -> kids_stacked kids.
@@ -303,13 +310,18 @@ Module WholeTrees.
     apply (block_tree_children_stacked block_pre s c l kids i0 o0); try assumption.
     exact (flow_inv_subtree block_pre _ _ Hsub Hinv).
   Qed.
-  Print Assumptions C10_block_tree_children_stacked.
+  Print Assumptions C10_block_tree_children_stacked_partial.
 
   (* clause 2 on whole trees (any `Num`): an in-flow child with auto width, no min / max width, no aspect ratio, length horizontal
      margins, not a table was last laid out (its final cache entry, up to the memo's key equality) with known width =
      container inner width - (margin_left + margin_right) -- the inner width of the container's OWN computed width -- and its
-     stored size is the size it returned *)
-  Theorem C10_block_tree_fill_width : forall (T : Type) (N : Num T) t1 s c l kids i0 o0 j tj ml mr,
+     stored size is the size it returned.
+     PARTIAL (renamed by the audit of wave 7b): the text says the child IS exactly that wide; this concludes that the child was ASKED with that
+     known width and stored what it answered -- that a node answers its known width is proved for the leaf of the K1 model only
+     (C10_fill_width_leaf: Model/BlockLeaf.v leaf_layout, not the Leaf.compute_leaf_layout behind leaf_out that bl_algo runs; C12_leaf / C19
+     cover that function but no lemma is stated here), not for containers.  Premises the text does not grant: no aspect ratio, not a table,
+     LENGTH horizontal margins (the text excludes auto margins only: percentages are left out here) *)
+  Theorem C10_block_tree_fill_width_partial : forall (T : Type) (N : Num T) t1 s c l kids i0 o0 j tj ml mr,
     flow_inv (T := T) block_pre t1 -> subtree_of (Node _ _ _ _ s c l kids) t1 ->
     final _ _ c = Some (i0, o0) -> bn_is_none s = false ->
     nth_error kids j = Some tj -> bn_inflow (style_of _ _ _ _ tj) = true ->
@@ -328,19 +340,19 @@ Module WholeTrees.
     apply (block_tree_fill_width block_pre s c l kids i0 o0 j tj ml mr); try assumption.
     exact (flow_inv_subtree block_pre _ _ Hsub Hinv).
   Qed.
-  Print Assumptions C10_block_tree_fill_width.
+  Print Assumptions C10_block_tree_fill_width_partial.
 
   (* the two together for one layout pass on a fresh tree (TaffyTree::compute_layout on a new tree) *)
-  Theorem C10_block_tree_fresh_pass : forall f (k : sk (BNode XQ)) av t1,
+  Theorem C10_block_tree_fresh_pass_partial : forall f (k : sk (BNode XQ)) av t1,
     block_compute_root block_pre abs_child_block f (bl_fresh k) av = Some t1 ->
     forall s c l kids i0 o0, subtree_of (Node _ _ _ _ s c l kids) t1 -> final _ _ c = Some (i0, o0) -> bn_is_none s = false ->
       top_edge_finite (bn_style s) -> Forall kid_order_ok kids -> kids_stacked kids.
   Proof.
     intros f k av t1 Hrun s c l kids i0 o0 Hsub Hf Hnone Htop Hkids.
     destruct (C10_block_tree_invariant XQ _) as (Hfresh & _ & Hroot).
-    exact (C10_block_tree_children_stacked t1 s c l kids i0 o0 (Hroot f _ av t1 Hrun (Hfresh k)) Hsub Hf Hnone Htop Hkids).
+    exact (C10_block_tree_children_stacked_partial t1 s c l kids i0 o0 (Hroot f _ av t1 Hrun (Hfresh k)) Hsub Hf Hnone Htop Hkids).
   Qed.
-  Print Assumptions C10_block_tree_fresh_pass.
+  Print Assumptions C10_block_tree_fresh_pass_partial.
 
   (* non-vacuity (Model/BlockAbsExample.v: scroll container with two in-flow leaves A, F and three absolute children between
      them, after one layout pass): the root is evaluated, its top edge is finite, every child meets kid_order_ok -- A and F with
@@ -359,7 +371,7 @@ Module WholeTrees.
   Proof.
     let v := eval vm_compute in (block_compute_root block_pre abs_child_block ex_fuel (bl_fresh exr_tree) exr_avail) in
       assert (E : block_compute_root block_pre abs_child_block ex_fuel (bl_fresh exr_tree) exr_avail = v) by (vm_compute; reflexivity).
-    rewrite E. pose proof (C10_block_tree_fresh_pass ex_fuel exr_tree exr_avail _ E) as Hthm. clear E. cbv beta iota.
+    rewrite E. pose proof (C10_block_tree_fresh_pass_partial ex_fuel exr_tree exr_avail _ E) as Hthm. clear E. cbv beta iota.
     match goal with |- _ /\ _ /\ _ /\ ?K /\ _ /\ _ => assert (Hk : K) end.
     { repeat apply Forall_cons; try apply Forall_nil; intro Hin; try (vm_compute in Hin; discriminate Hin).
       all: split; [unfold order_style; cbn; repeat split; try exact I; try discriminate|].
@@ -370,6 +382,90 @@ Module WholeTrees.
     eapply Hthm; [apply sub_here|reflexivity|reflexivity|split; exact I|exact Hk].
   Qed.
   Print Assumptions C10_block_tree_example.
+
+  (* ---- audit (wave 7b): C10_block_tree_example has only LEAVES as in-flow children (its one nested container is absolute), so no output the
+     root consumed was computed by the block algorithm; and clause 2 had no computed instance *)
+
+  (* nested: root > [A; B > [C; D (display:none); G]; E (absolute); F] (Model/BlockEngineExample.v ex_tree) with the REAL absolute
+     routine under compute_root_layout: B is an IN-FLOW block container, so the root consumes an output (200 x 44, top set {6, 0})
+     that the engine computed by running the block algorithm on B; the premises hold at the root AND at B (computed), hence by
+     C10_block_tree_fresh_pass_partial both child lists are stacked; in-flow children of the root at y = 10 (h 24), 40 (h 44), 84 (h 12),
+     of B at y = 4 (h 22), 26 (h 14) *)
+  Example C10_block_tree_example_nested :
+    match block_compute_root block_pre abs_child_block ex_fuel (bl_fresh ex_tree) exr_avail with
+    | Some (Node _ _ _ _ s c l kids) =>
+        Forall kid_order_ok kids /\ kids_stacked kids /\
+        list_eqb yh_eqb (inflow_yh kids) [(Fin 10, Fin 24); (Fin 40, Fin 44); (Fin 84, Fin 12)] = true /\
+        match kids with
+        | _ :: Node _ _ _ _ sB cB lB kidsB :: _ =>
+            (exists iB oB, final _ _ cB = Some (iB, oB)) /\ bn_is_none sB = false /\ top_edge_finite (bn_style sB) /\
+            Forall kid_order_ok kidsB /\ kids_stacked kidsB /\
+            list_eqb yh_eqb (inflow_yh kidsB) [(Fin 4, Fin 22); (Fin 26, Fin 14)] = true
+        | _ => False
+        end
+    | None => False
+    end.
+  Proof.
+    let v := eval vm_compute in (block_compute_root block_pre abs_child_block ex_fuel (bl_fresh ex_tree) exr_avail) in
+      assert (E : block_compute_root block_pre abs_child_block ex_fuel (bl_fresh ex_tree) exr_avail = v) by (vm_compute; reflexivity).
+    rewrite E. pose proof (C10_block_tree_fresh_pass_partial ex_fuel ex_tree exr_avail _ E) as Hthm. clear E. cbv beta iota.
+    match goal with |- ?K /\ _ /\ _ /\ _ => assert (Hk : K) end.
+    { repeat apply Forall_cons; try apply Forall_nil; intro Hin; try (vm_compute in Hin; discriminate Hin).
+      all: split; [unfold order_style; cbn; repeat split; try exact I; try discriminate|].
+      all: intros i o E; vm_compute in E; injection E as <- <-; unfold order_out, fin_ms_q; cbn; repeat split; try exact I; try discriminate.
+      all: try (intro; discriminate). }
+    split; [exact Hk|]. split; [eapply Hthm; [apply sub_here|reflexivity|reflexivity|split; exact I|exact Hk]|].
+    split; [vm_compute; reflexivity|].
+    match goal with |- _ /\ _ /\ _ /\ ?K /\ _ /\ _ => assert (HkB : K) end.
+    { repeat apply Forall_cons; try apply Forall_nil; intro Hin; try (vm_compute in Hin; discriminate Hin).
+      all: split; [unfold order_style; cbn; repeat split; try exact I; try discriminate|].
+      all: intros i o E; vm_compute in E; injection E as <- <-; unfold order_out, fin_ms_q; cbn; repeat split; try exact I; try discriminate.
+      all: try (intro; discriminate). }
+    split; [eexists; eexists; reflexivity|]. split; [reflexivity|]. split; [split; exact I|]. split; [exact HkB|].
+    split; [|vm_compute; reflexivity].
+    eapply Hthm; [eapply sub_kid; [right; left; reflexivity|apply sub_here]|reflexivity|reflexivity|split; exact I|exact HkB].
+  Qed.
+  Print Assumptions C10_block_tree_example_nested.
+
+  (* clause 2 on the same pass: the leaf A and the nested container B (auto width, no min / max width, margins 0 / 0) meet the premises
+     of C10_block_tree_fill_width_partial; the root's own computed width is 212 (inner width 212 - 2 * (5 + 1) = 200); both were last laid
+     out in PerformLayout mode with known width 200, returned width 200 and store width 200; and the theorem's conclusion for both *)
+  Example C10_block_tree_fill_width_example :
+    match block_compute_root block_pre abs_child_block ex_fuel (bl_fresh ex_tree) exr_avail with
+    | Some (Node _ _ _ _ s c l kids) =>
+        match kids with
+        | tA :: tB :: _ =>
+            fw_prem tA /\ fw_prem tB /\
+            (exists i0 o0, final _ _ c = Some (i0, o0) /\ s_w (co_size o0) = Fin 212) /\
+            fw_vals tA = (Some (PerformLayout, Some (Fin 200), Fin 200), Fin 200) /\
+            fw_vals tB = (Some (PerformLayout, Some (Fin 200), Fin 200), Fin 200) /\
+            (forall j tj, (j < 2)%nat -> nth_error kids j = Some tj ->
+               exists i' iq co, last_entry tj = Some (i', co) /\ (i' = iq \/ bin_eqb i' iq = true) /\ bi_mode iq = PerformLayout /\
+                                bl_size (lay_of _ _ _ _ tj) = co_size co)
+        | _ => False
+        end
+    | None => False
+    end.
+  Proof.
+    let v := eval vm_compute in (block_compute_root block_pre abs_child_block ex_fuel (bl_fresh ex_tree) exr_avail) in
+      assert (E : block_compute_root block_pre abs_child_block ex_fuel (bl_fresh ex_tree) exr_avail = v) by (vm_compute; reflexivity).
+    rewrite E.
+    destruct (C10_block_tree_invariant XQ _) as (Hfresh & _ & Hroot).
+    pose proof (Hroot ex_fuel _ exr_avail _ E (Hfresh ex_tree)) as Hinv. clear E. cbv beta iota.
+    split; [vm_compute; repeat split; reflexivity|]. split; [vm_compute; repeat split; reflexivity|].
+    split; [eexists; eexists; split; [reflexivity|vm_compute; reflexivity]|].
+    split; [vm_compute; reflexivity|]. split; [vm_compute; reflexivity|].
+    intros j tj Hj Hn.
+    assert (P : fw_prem tj).
+    { destruct j as [|[|j]]; [| |exfalso; inversion Hj as [|? H1]; inversion H1 as [|? H2]; inversion H2]; cbn in Hn; injection Hn as <-;
+        vm_compute; repeat split; reflexivity. }
+    destruct P as (P1 & P2 & P3 & P4 & P5 & P6 & P7 & P8).
+    match type of Hinv with flow_inv _ (Node _ _ _ _ ?s ?c ?l ?kids) =>
+      destruct (C10_block_tree_fill_width_partial XQ _ _ s c l kids _ _ j tj (Fin 0) (Fin 0) Hinv (sub_here _) eq_refl eq_refl Hn P1 P2 P3 P4 P5 P6 P7 P8)
+        as (i' & iq & co & A & B & C & _ & D) end.
+    exists i', iq, co. repeat split; assumption.
+  Qed.
+  Print Assumptions C10_block_tree_fill_width_example.
 End WholeTrees.
 
 Print Assumptions C10_resolve_spec.
